@@ -168,3 +168,57 @@ pub fn par_map<T: Send, F: Fn(usize) -> T + Sync + Send>(n: usize, f: F) -> Vec<
     use rayon::prelude::*;
     (0..n).into_par_iter().map(f).collect()
 }
+
+/// Byte source that can be topped up: it answers with what it has (zero bytes when dry) and is read
+/// on from the same place once more data has been appended.
+pub struct GrowSrc {
+    pub data: std::rc::Rc<std::cell::RefCell<Vec<u8>>>,
+    pub pos: usize,
+}
+impl std::io::Read for GrowSrc {
+    fn read(&mut self, buf: &mut [u8]) -> std::io::Result<usize> {
+        let d = self.data.borrow();
+        let n = buf.len().min(d.len() - self.pos);
+        buf[..n].copy_from_slice(&d[self.pos..self.pos + n]);
+        self.pos += n;
+        Ok(n)
+    }
+}
+
+/// Delivery in two pieces: one reader over a source that first holds `concat[..split]`; a call that
+/// fails is repeated once after the rest has been appended. `expect` holds what the same calls show
+/// when everything is there from the start. `Ok(false)`: a call was *accepted* on the shortened
+/// data with a shorter picture (the early-end rule; C05 models that case), nothing to compare.
+pub fn deliver_in_two(opts: u8, init: &[&[u8]], concat: &[u8], split: usize, expect: &[Option<Snap>]) -> Result<bool, String> {
+    let mut st = H263State::new(options_from_bits(opts));
+    for b in init {
+        let _ = decode_bytes(&mut st, b);
+    }
+    let data = std::rc::Rc::new(std::cell::RefCell::new(concat[..split].to_vec()));
+    let mut rd = H263Reader::from_source(GrowSrc { data: data.clone(), pos: 0 });
+    let mut appended = false;
+    for (i, want) in expect.iter().enumerate() {
+        loop {
+            match decode_with(&mut st, &mut rd) {
+                Outcome::Panic(p) => return Err(format!("panic {p}")),
+                Outcome::Err(e) => {
+                    if appended {
+                        return Err(format!("picture {i} fails with {e} after the rest of the data has arrived (first delivery: {split} of {} bytes)", concat.len()));
+                    }
+                    data.borrow_mut().extend_from_slice(&concat[split..]);
+                    appended = true;
+                }
+                Outcome::Ok => {
+                    if last_snap(&st) == *want {
+                        break;
+                    }
+                    if !appended {
+                        return Ok(false);
+                    }
+                    return Err(format!("picture {i} differs from one-piece delivery (first delivery: {split} of {} bytes)", concat.len()));
+                }
+            }
+        }
+    }
+    Ok(true)
+}
